@@ -153,6 +153,8 @@ class Picmg(object):
         rsp = self.send_message(req)
         check_completion_code(rsp.completion_code)
 
+        link = None
+        state = None
         if len(rsp.data) > 4:
             link = LinkDescriptor()
             link.channel = rsp.data[0] & 0x3F
